@@ -9,7 +9,7 @@ Enumerated completely (no sampling):
     page + a whole audio page; a window around a link boundary of each chain); thorough = ALL pairs of the smallest file
   * request-length schedules (ov_read_float: constants 1,2,3,63,64,65,4096, alternating 1/4096, ramps 1..k..1;
     ov_read: 1 frame, 3 frames, 7 bytes (not frame aligned), 4096 bytes) x delivery sets (quick: chosen cap set and all
-    1-cuts of the smallest file; thorough: full product with all caps and all 1-cuts of every file)
+    1-cuts of the smallest file and around the link boundaries; thorough: full product with all caps and all 1-cuts of every file)
   * x access path: vorbisfile seekable / vorbisfile streaming (seek_func NULL) / packet API via a raw libogg loop.
 Oracle: per link bit-identical floats to the packet-API decode with full reads, link order, channel count/rate, no
 negative return (no hole / rejected packet on the packet path), ov_read integer bytes identical across schedules."""
@@ -315,20 +315,15 @@ def run(tier):
         windows['S:W_A x W_B'] = [list(W_A), list(W_B)]
     phase('cut2_windows', 'cut2', c4, 'w', 600)
 
-    # ---- phase 4b: request-length schedules x every 1-cut
+    # ---- phase 4: request-length schedules x every 1-cut of the smallest file, and x the link-boundary neighbourhoods of the chains
     c3b = []
-    for f in (['S'] if not thorough else big + ['S']):
-        for (p, a, q) in combos():
-            c3b += rows(R, f, p, a, q, 0, [], 1, files[f]['len'])
+    for (p, a, q) in combos():
+        c3b += rows(R, 'S', p, a, q, 0, [], 1, files['S']['len'])
+    for f in ('S2', 'F2'):
+        for bnd in files[f]['bounds'][1:]:
+            for (p, a, q) in combos():
+                c3b += rows(R, f, p, a, q, 0, [], bnd - 40, bnd + 70)
     phase('req_x_cut1', 'req', c3b, 'q', 200)
-    # link-boundary neighbourhood of the chains under every request schedule (quick; thorough has the full product above)
-    if not thorough:
-        c3c = []
-        for f in ('S2', 'F2'):
-            for bnd in files[f]['bounds'][1:]:
-                for (p, a, q) in combos():
-                    c3c += rows(R, f, p, a, q, 0, [], bnd - 40, bnd + 70)
-        phase('req_x_cut1_linkboundary', 'req', c3c, 'l', 400)
 
     # ---- phase 5 (thorough): ALL 2-cut pairs of the smallest file, batched by b1 so that a deadline cuts cleanly
     pairs_done_below = None
@@ -352,6 +347,13 @@ def run(tier):
         pairs_done_below = done_b1
         if not complete['cut2_all_pairs_S']:
             cut_note.append(f'deadline: all 2-cut pairs (b1<b2) of S completed only for b1 below {done_b1} (per access path), file length {L}')
+    # ---- phase 6 (thorough): request-length schedules x every 1-cut of every file (full product; after the pairs so that a deadline keeps the pairs)
+    if thorough:
+        c3d = []
+        for f in big:
+            for (p, a, q) in combos():
+                c3d += rows(R, f, p, a, q, 0, [], 1, files[f]['len'])
+        phase('req_x_cut1_all_files', 'req', c3d, 'Q', 200)
     exhaustive = all(complete.values())
 
     # ---- determinism: re-run probe cases twice, identical output required
